@@ -343,3 +343,6 @@ def builder_modifiers(c):
 def extra_checks(res, tier, seed, known, log):
     from pyvc import runner
     runner.cli_grid(res, "C10", tier, seed, known, quick=30, thorough=300)
+    # the rename function of the single-end renamer is generated code (exec): runtime contract as the bounded stand-in
+    runner.runtime_standin(res, "C10", "cnames", "renamer", seed, 3000 if tier == "quick" else 40000, 60 if tier == "quick" else 600, prefix="C10:",
+                           label="renamers: the template is expanded from the header as it is when the renamer runs (bounded)")
